@@ -53,7 +53,7 @@ def nis_budget(residual, cov, x, q, k_cond):
     else:
         sv = np.linalg.svd(s, compute_uv=False)
         cond = float(sv[0] / sv[-1]) if sv[-1] > 0 else math.inf
-    return k_cond * EPS * cond * float(np.linalg.norm(r)) * float(np.linalg.norm(x)) + 64.0 * EPS * abs(q), cond
+    return k_cond * EPS * cond * float(np.linalg.norm(r)) * float(np.linalg.norm(x)) + 128.0 * EPS * abs(q), cond
 
 
 def upper_bound(alpha, dof):
